@@ -207,6 +207,14 @@ def tales_expr(ctx, kind, site):
 
 
 def rec(ctx, kind, e, site="value"):
+    fp = ctx.opts.get("fail_p")
+    if fp and e[0] not in ("default", "nothing") and \
+            ctx.draw(st.integers(0, fp)) == 0:
+        # a planted failure: logs its tag, then raises
+        pool = CAUGHT_CLS + UNCAUGHT_CLS
+        if ctx.draw(st.integers(0, 11)) == 0:
+            pool = ["KeyboardInterrupt", "SystemExit", "RecursionError"]
+        return ["boom", ctx.draw(st.sampled_from(pool)), ctx.newtag(kind)]
     if ctx.opts.get("tales") and ctx.draw(st.integers(0, 2)) != 0 and \
             e[0] not in ("default", "nothing"):
         return tales_expr(ctx, kind, site)
@@ -391,6 +399,29 @@ def element(ctx, depth):
         el["attrs"] = [a for a in el["attrs"] if not (
             a[1].lower() in seen and any(p[0] == "interp" for p in a[3]))]
         stmts["attributes"] = entries
+    if ctx.opts.get("onerror") and d(st.integers(0, 9)) < ctx.opts["onerror"]:
+        c = d(st.integers(0, 9))
+        if c <= 3:
+            e = ["const", d(st.sampled_from(["'E'", "'<b>err</b>'", "''",
+                                             "None", "'a&b'"]))]
+        elif c == 4:
+            e = ["attr", ["attr", ["var", "error"], "type"], "__name__"]
+        elif c == 5:
+            e = ["call", "str", [["attr", ["var", "error"], "value"]]]
+        elif c == 6:
+            e = ["fstr", [["lit", "L"], ["e", ["attr", ["var", "error"],
+                                               "lineno"]],
+                          ["lit", "C"], ["e", ["attr", ["var", "error"],
+                                               "offset"]]]]
+        elif c == 7:
+            e = ["nothing"]
+        elif c == 8:
+            e = ["boom", d(st.sampled_from(["ValueError", "OSError"])),
+                 ctx.newtag("oe")]
+        else:
+            e = ["rec", ctx.newtag("oe"), ["var", d(st.sampled_from(
+                ctx.scalars))]]
+        stmts["on-error"] = [d(st.sampled_from(["text", "structure"])), e]
     # children
     has_switch = "switch" in stmts
     if has_switch:
